@@ -371,7 +371,7 @@ def run_child_sharded(cases, shards=4):
 
 # ---------------------------------------------------------------- generators
 # the value universe (literal texts); FALSY per the property text: 0, [] and ""
-VALS = ['0', '1', '7', '-3', '[]', '[1 2]', '[3 4 5]', '""', '"ab"', '0cq', ':foo', '[[1 2] [3 4]]', '[1 "a"]']
+VALS = ['0', '1', '7', '-3', '[]', '[1 2]', '[3 4 5]', '""', '"ab"', '0cq', ':foo', '[[1 2] [3 4]]', '[1 "a"]', '[[1] 2]']
 FALSY = {'0', '[]', '""'}
 GLOBALS = ['a::2', 'b::[1 2]']
 
@@ -466,13 +466,20 @@ def family_calls(rng, tier):
             stmts[-1] = e.render({p: pos[p] for p in ps if p in pos})
             unbound_param = any(p not in pos for p in ps)
             same = [3, 4, 5, 6] if not unbound_param else [3, 4, 5]
-            if ar > 1 and any(v.startswith('[') for v in argv):
+            if (ar > 1 and any(v.startswith('[') for v in argv)) or '[[1] 2]' in argv:
                 # several lists inside one list literal change representation (a ragged nested literal keeps Python lists
                 # as elements, a mixed one turns integer rows into object rows): literal representation is outside C03,
                 # so the @ form is used with one argument or with atoms only
                 stmts[5] = '0'
                 same.remove(5)
-            yield stmts, {"family": "calls", "same": same, "no_change_from": 3}
+            if rng.random() < 0.5:
+                # call the function once with plain integers first: a compilation kept on an inner node of the body
+                # must not change what the later calls give
+                stmts.insert(3, 'f(%s)' % ";".join(str(rng.randint(1, 9)) for _ in range(ar)))
+                same = [i + 1 for i in same]
+                yield stmts, {"family": "calls", "same": same, "no_change_from": 4}
+            else:
+                yield stmts, {"family": "calls", "same": same, "no_change_from": 3}
 
 
 REC = [
@@ -510,6 +517,29 @@ SCOPE = [
 ]
 
 
+SCOPE_FORMS = [
+    # locals that have the name of a parameter, in every call form; expected canonical result
+    (['h::{[y];x+y*10}', 'h(1;2)'], 1, '(ok (i 21))'),
+    (['h::{[y];x+y*10}', '{[y];x+y*10}(1;2)'], 1, '(ok (i 21))'),
+    (['h::{[y];x+y*10}', 'h@[1 2]'], 1, '(ok (i 21))'),
+    (['h::{[y];x+y*10}', 'g::h(1;)', 'g(2)'], 2, '(ok (i 21))'),
+    (['h::{[y];x+y*10}', 'g::h(;2)', 'g(1)'], 2, '(ok (i 21))'),
+    (['h::{[y];x+y*10}', "[1 2]h'[2 3]"], 1, '(ok (a (i 21) (i 32)))'),
+    (['h::{[t y];t::y;x+t*10}', "[1 2]h'[2 3]"], 1, '(ok (a (i 21) (i 32)))'),
+    (['h::{[x];x*x}', "h'[1 2 3]"], 1, '(ok (a (i 1) (i 4) (i 9)))'),
+    (['h::{[y x];x-y}', 'h/[10 1 2]'], 1, '(ok (i 7))'),
+    (['r::{[x];:[x=0;0;x+.f(x-1)]}', 'r(3)'], 1, '(ok (i 6))'),
+    (['r::{[x t];t::x;:[x=0;0;t+.f(x-1)]}', 'r(3)'], 1, '(ok (i 6))'),
+    (['h::{[z t];t::z;x+y+t}', 'h(1;2;3)', 'h@[1 2 3]', 'g::h(;2;)', 'g(1;3)'], 4, '(ok (i 6))'),
+    (['h::{[z t];t::z;x+y+t}', 'h(1;2;3)', 'h@[1 2 3]'], 2, '(ok (i 6))'),
+]
+
+
+def family_scope_forms(rng, tier):
+    for stmts, i, want in SCOPE_FORMS:
+        yield list(stmts), {"family": "scope", "expect_sx": (i, want), "oracle_only": True}
+
+
 def family_scope(rng, tier):
     for stmts, exp in SCOPE:
         for form in ('%s', '{%s}()', ':[1;%s;0]'):
@@ -519,6 +549,70 @@ def family_scope(rng, tier):
                 continue
             st[i] = form % st[i]
             yield st, {"family": "scope", "expect_int": exp}
+
+
+WARM_BODIES = ['(,x=y)', '((x=y),z)', '(#x<y)', '(,x<y)', '(,(x-y))', '(,x*y)', '((x=y),(x<y))', '(#,x=y)', ':[#x;,x=y;0]']
+WARM_ARGS = [('[[1] 2]', '[[1] 2]'), ('[[1] 2]', '[[1] 3]'), ('[[1 2] 3]', '[[1 2] 3]'), ('[1 "a"]', '[1 "a"]'), ('[[1] [2 3]]', '[[1] [2 4]]'),
+             ('[1 2]', '[1 3]'), ('"ab"', '"ab"'), ('[[3] 4]', '[[1] 2]')]
+
+
+def family_warm(rng, tier):
+    """a function is first applied to plain numbers (which leaves compilations on the inner nodes of its body) and then to
+    lists of mixed depth, strings, mixed lists: the call must still give the value of the substituted body"""
+    for body in WARM_BODIES:
+        ar = 3 if 'z' in body else 2
+        for a, b in WARM_ARGS:
+            for warm in (['f(1;2;3)'], ['f([1 2];[1 3];0)'], ['f(1;2;3)', 'f([1 2];[1 3];0)']):
+                argv = [a, b, '1'][:ar]
+                w = [x if ar == 3 else x.replace(';3)', ')').replace(';0)', ')') for x in warm]
+                sub = dict(zip(['x', 'y', 'z'], argv))
+                text = body
+                for k_, v_ in sub.items():
+                    text = text.replace(k_, '(' + v_ + ')')
+                stmts = ['f::{%s}' % body] + w + ['f(%s)' % ";".join(argv), 'v::f', 'v(%s)' % ";".join(argv),
+                                                  'p::f(%s;%s)' % (argv[0], ";".join([''] * (ar - 1))), 'p(%s)' % ";".join(argv[1:]), text]
+                n = 1 + len(w)
+                yield stmts, {"family": "warm", "same": [n, n + 2, n + 4, n + 5], "oracle_only": True}
+
+
+ADV_DYADS = ['x-y', 'y-x', 'y,x', 'x,y', 'x-x', 'y-y', '(x*2)-y', 'y-x*2', 'x+y', 'y', 'x', 'x*y', 'y*x-1']
+ADV_MONADS = ['-x', 'x*x', 'x-1', '0-x', '#x', 'x']
+ADV_LISTS = [['1', '2', '3', '4'], ['5', '3'], ['2', '7', '1'], ['9']]
+
+
+def family_adverb(rng, tier):
+    """a function as the verb of an adverb: Over, Scan-Over, Each, Each-2 (and Over below Each) must give what the
+    explicit direct calls give; lambda verbs with swapped or repeated parameters, literal and through a variable"""
+    oo = {"family": "adverb", "oracle_only": True}
+    for b in ADV_DYADS:
+        listy = ',' in b
+        for l in ADV_LISTS:
+            lit = "[%s]" % " ".join(l)
+            acc = l[0]
+            scan = [l[0]]
+            for e in l[1:]:
+                acc = "f(%s;%s)" % (acc, e)
+                scan.append(acc)
+            pre = ['f::{%s}' % b]
+            yield pre + ['{%s}/%s' % (b, lit), 'f/%s' % lit, acc], dict(oo, same=[1, 2, 3])
+            if not listy and len(l) > 1:
+                yield pre + ['{%s}\\%s' % (b, lit), 'f\\%s' % lit, ",".join(scan)], dict(oo, same=[1, 2, 3])
+                pairs = ",".join("f(%s;%s)" % (p, q) for p, q in zip(l, reversed(l)))
+                rl = "[%s]" % " ".join(reversed(l))
+                yield pre + ["%s{%s}'%s" % (lit, b, rl), "%s f'%s" % (lit, rl), pairs], dict(oo, same=[1, 2, 3])
+                two = "[%s %s]" % (lit, rl)
+                acc2 = scan[-1]
+                racc = list(reversed(l))[0]
+                for e in list(reversed(l))[1:]:
+                    racc = "f(%s;%s)" % (racc, e)
+                yield pre + ["{%s}/'%s" % (b, two), "f/'%s" % two, "%s,%s" % (acc2, racc)], dict(oo, same=[1, 2, 3])
+    for b in ADV_MONADS:
+        for l in ADV_LISTS:
+            if len(l) < 2:
+                continue
+            lit = "[%s]" % " ".join(l)
+            pre = ['f::{%s}' % b]
+            yield pre + ["{%s}'%s" % (b, lit), "f'%s" % lit, ",".join("f(%s)" % e for e in l)], dict(oo, same=[1, 2, 3])
 
 
 def py_fill(base, fill):
@@ -841,6 +935,10 @@ def check_programs(chk, rng, fams):
                 i, v = meta[k]
                 if recs[i]["r"] != "(ok (i %d))" % v:
                     viol("statement %d (%s) should give %d, gives %s" % (i, st[i], v, recs[i]["r"][:80]))
+        if meta.get("expect_sx"):
+            i, want = meta["expect_sx"]
+            if recs[i]["r"] != want:
+                viol("statement %d (%s) should give %s, gives %s" % (i, st[i], want, recs[i]["r"][:80]))
         if meta.get("expect_err"):
             i, want = meta["expect_err"]
             if recs[i]["r"].startswith("EXC") != want:
@@ -899,7 +997,7 @@ def check_programs(chk, rng, fams):
     return bad_props, bad_corrs
 
 
-FAMILIES = [family_calls, family_rec, family_proj, family_faults, family_cond, family_scope, family_misc, family_ops]
+FAMILIES = [family_calls, family_rec, family_proj, family_faults, family_cond, family_scope, family_scope_forms, family_warm, family_adverb, family_misc, family_ops]
 
 
 def run(tier, replay=None):
@@ -924,7 +1022,7 @@ def run(tier, replay=None):
         rng2 = random.Random(chk.seed + 1)
         chk.tier = "thorough"
         try:
-            bp2, _ = check_programs(chk, rng2, [family_calls, family_proj, family_faults, family_cond, family_rec, family_scope])
+            bp2, _ = check_programs(chk, rng2, [family_calls, family_proj, family_faults, family_cond, family_rec, family_scope, family_scope_forms, family_warm, family_adverb])
             bpm2, _ = check_merge(chk, rng2)
         finally:
             chk.tier = tier
